@@ -151,9 +151,26 @@ def frfReturnsFrq (srsFrqGiven : Bool) (ret : Option Bool) : Bool :=
   | some b => b
   | none => !srsFrqGiven
 
+/-- `some` of all the values, `none` as soon as one is missing -/
+def allSome {β : Type} : List (Option β) → Option (List β)
+  | [] => some []
+  | none :: _ => none
+  | some v :: rest => match allSome rest with
+      | none => none
+      | some vs => some (v :: vs)
+
 /-- rows from columns: `rows[i] = [c[i] for c in colsL]`, `n` rows -/
 def rowsOfCols (n : Nat) (colsL : List (List α)) : List (List α) :=
   (List.range n).map fun i => colsL.filterMap (·[i]?)
+
+/-- `shk[i][j] = abs(a).max(axis=1)` for every oscillator `i` and FRF column `j` -/
+def srsFrfSh (Q : α) (sf grid : List α) (amps : List (List α)) : Option (List (List α)) :=
+  allSome (sf.map fun fn => allSome (amps.map fun a => srsFrfOne Q fn grid a))
+
+/-- `resp['frfs']` -/
+def srsFrfFrfs (Q : α) (sf grid : List α) (amps : List (List α)) : List (List (List (α × α))) :=
+  List.zipWith (fun g arow => arow.map fun a => sf.map fun fn =>
+    frfRespC Q (2 * pi * fn) (2 * pi * g) a) grid (rowsOfCols grid.length amps)
 
 /-- `srs.srs_frf(frf, frf_frq, srs_frq, Q, getresp=…, return_srs_frq=…, scale_by_Q_only=…)`;
 `cols` are the columns of `frf` as complex numbers.  `none` where the code raises: `getresp` together
@@ -173,15 +190,10 @@ def srsFrf (cols : List (List (α × α))) (frfFrq : List α) (srsFrq : Option (
     else
       let grid := frfGrid Q frfFrq sf
       let amps := cols.map fun c => frfAmps frfFrq (absCol c) grid
-      match sf.mapM (fun fn => amps.mapM fun a => srsFrfOne Q fn grid a) with
+      match srsFrfSh Q sf grid amps with
       | none => none
       | some sh =>
-        let resp : FrfResp α :=
-          ⟨grid,
-            List.zipWith (fun g arow => arow.map fun a => sf.map fun fn =>
-              frfRespC Q (2 * pi * fn) (2 * pi * g) a) grid (rowsOfCols grid.length amps),
-            sf⟩
-        some ⟨sh, retFrq, if getresp then some resp else none⟩
+        some ⟨sh, retFrq, if getresp then some ⟨grid, srsFrfFrfs Q sf grid amps, sf⟩ else none⟩
 
 end frf
 end PyYetiVerif.Srs
